@@ -1,5 +1,6 @@
 import PQ.Model.Reader
 import PQ.Model.SpecWriter
+import PQ.Gen.Facts
 /-!
 # C18 — files outside the supported subset are refused, not misread
 
@@ -32,6 +33,25 @@ theorem checkPage_spec (ph : PHdr) (defs reps : Bool) :
         | (rintro ⟨_, _, _, _, ⟨rfl, rfl, rfl, rfl⟩, h1, h2⟩; exact ⟨h1, h2⟩)
         | (intro h1; exact ⟨_, _, _, _, ⟨rfl, rfl, rfl, rfl⟩, h1⟩)
         | (rintro ⟨_, _, _, _, ⟨rfl, rfl, rfl, rfl⟩, h1⟩; exact h1))
+
+/-- the translator recognised `checkPage` of the working tree as a sequence of guards -/
+theorem checkPage_translated : PQ.Gen.Facts.checkPageTranslated = true := by decide
+
+/-- **the reader model's `checkPage` IS the working tree's `checkPage`** (`Facts.checkPageGen` is regenerated
+from fields.go on every run; constants come from schema/parquet.go): same verdict on every page header -/
+theorem checkPage_eq_source (ph : PHdr) (defs reps : Bool) :
+    checkPage ph defs reps =
+      PQ.Gen.Facts.checkPageGen ph.ty ph.dph.isSome
+        (match ph.dph with | some (_, e, _, _, _) => e | none => 0)
+        (match ph.dph with | some (_, _, d, _, _) => d | none => 0)
+        (match ph.dph with | some (_, _, _, r, _) => r | none => 0) defs reps := by
+  unfold checkPage PQ.Gen.Facts.checkPageGen
+  cases h : ph.dph with
+  | none => simp
+  | some d =>
+    obtain ⟨nv, enc, denc, renc, st⟩ := d
+    by_cases h1 : ph.ty = 0 <;> by_cases h2 : enc = 0 <;> by_cases h3 : denc = 3 <;> by_cases h4 : renc = 3 <;>
+      cases defs <;> cases reps <;> simp [h1, h2, h3, h4]
 
 theorem checked_page_total (ph : PHdr) (defs reps : Bool) (h : checkPage ph defs reps = true) :
     ∃ nv, numValuesOf ph = .ok nv := by
